@@ -59,6 +59,12 @@ func (p *Point) UnmarshalCBOR(data []byte) error {
 		}
 		p.Slot = slot
 		p.Hash = hash
+	} else if len(tmp) != 0 {
+		// A point is either the origin (empty list) or a slot/hash pair
+		return fmt.Errorf(
+			"Point must have 0 or 2 elements, got %d",
+			len(tmp),
+		)
 	}
 	return nil
 }
